@@ -31,6 +31,13 @@ RULE = ("combi: (d in 1..3 (4 thorough), 1<=lmin<=5, lmax=lmin+0..5 (mostly <=3)
         "limited by construction through a budget on the total number of component-grid points. Non-trivial = d>=2 and "
         "lmax>lmin (more than one component grid, negative coefficients present) and at least one carried basis function "
         "is not representable on the coarsest component grid (sum_d max(k_d,lmin) > d*lmin). "
+        "observe: one StandardCombi object serves a warm-up request (levels w0<=w1), then 1-3 drawn public read-only / output "
+        "methods (print_resulting_combi_scheme (2 option sets), print_resulting_sparsegrid, print_subspaces (default and "
+        "sparse_grid_spaces=False), plot (2), get_total_num_points (2), get_points_and_weights, get_points_component_grid, __call__, "
+        "interpolate_grid, check_combi_scheme (boundary=True only); Agg backend, figures closed, files written to the scratch "
+        "directory in 1 of 6 cases), then the real request with other levels: all clauses of combi apply, and scheme, points, "
+        "integral, interpolated values and combined weights must be bit-identical to a twin object that got the same requests "
+        "without the calls; non-trivial = the warm-up levels differ from the requested ones. "
         "scheme: structure only (no integrand) for d in 1..5 and lmin up to 5: point union, coefficient sums, point "
         "counts; non-trivial = d>=2 and lmax>lmin. Distinct = distinct case dict.")
 ASSUMPTIONS = [
@@ -60,6 +67,10 @@ ASSUMPTIONS = [
     "dimension and no returned point may lie outside the closed box: points on the faces of the box are points of the sparse "
     "grid, and interpolation is requested on the closed box including its faces and corners (all other point comparisons "
     "identify points by relative position rounded to 2^-32 and would not see a last-bit shift of the outermost nodes)",
+    "observe: the plot / print / getter methods are read-only by their documentation ('plots', 'prints', 'returns'); a later "
+    "request on the same object must answer exactly as on an object that was not observed. check_combi_scheme is called with "
+    "boundary=True only: with boundary=False it fails on the unchanged tree when the level-1 midpoint (a+b)/2 and a+(b-a)/2 "
+    "differ in the last bit (exact tuple comparison; its error path then needs self.refinement, which StandardCombi lacks)",
     "interpolation points are generated inside the closed box [a,b] (the interpolant is only defined there; scipy's interpn, "
     "which the library delegates to, raises for points outside)",
     "the sparse-grid-interpolant oracle for arbitrary functions is skipped (counted as class sgi-oracle-skipped(size)) when the "
@@ -495,6 +506,10 @@ def run_combi(case, corrupt=None):
             w0, w1 = case["warmup"]
             sc.perform_operation(w0, w1)
             sc(R[:2])
+        elif case.get("observe"):
+            sc.set_combi_parameters(lmin, lmax)
+        for name in case.get("observe") or []:
+            observe(name, sc, a, b, case)        # read-only / output methods between two requests: must not change anything
         if order[0] != "integrate":
             sc.set_combi_parameters(lmin, lmax)
         for blk in order:
@@ -703,6 +718,116 @@ def run_combi(case, corrupt=None):
     info["max_dim"] = dim
     info["max_lmax"] = lmax
     out.info = info
+    if case.get("want_raw"):
+        with drive.quiet():
+            obs["scheme"] = [(tuple(int(x) for x in cg.levelvector), float(cg.coefficient)) for cg in sc.scheme]
+            obs["points"] = [[tuple(float(x) for x in p) for p in sc.get_points_component_grid(cg.levelvector)] for cg in sc.scheme]
+            obs["lmin_lmax"] = (list(sc.lmin), list(sc.lmax))
+        out.raw = obs
+    return out
+
+
+# ----------------------------------------------------------------------------------------------------------------
+# sub-check observe: read-only / output methods between two requests must not change the object
+# ----------------------------------------------------------------------------------------------------------------
+def _obs_file(case, name):
+    return ("c02_obs_%s.png" % name) if case.get("savefile") else None
+
+
+OBSERVERS = {
+    "print_resulting_combi_scheme": lambda sc, a, b, c: sc.print_resulting_combi_scheme(filename=_obs_file(c, "pcs")),
+    "print_resulting_combi_scheme(show_coefficient,add_complete_full_grid_space)":
+        lambda sc, a, b, c: sc.print_resulting_combi_scheme(filename=_obs_file(c, "pcs2"), show_coefficient=True, add_complete_full_grid_space=True),
+    "print_resulting_sparsegrid": lambda sc, a, b, c: sc.print_resulting_sparsegrid(filename=_obs_file(c, "psg") if len(a) <= 2 else None, show_fig=False),
+    "print_subspaces": lambda sc, a, b, c: sc.print_subspaces(filename=_obs_file(c, "psub")),
+    "print_subspaces(sparse_grid_spaces=False)": lambda sc, a, b, c: sc.print_subspaces(filename=_obs_file(c, "psub2"), sparse_grid_spaces=False),
+    "plot": lambda sc, a, b, c: sc.plot(filename=_obs_file(c, "plot")),
+    "plot(contour=True)": lambda sc, a, b, c: sc.plot(filename=_obs_file(c, "plot2"), contour=True),
+    "get_total_num_points": lambda sc, a, b, c: sc.get_total_num_points(),
+    "get_total_num_points(distinct_function_evals=False)": lambda sc, a, b, c: sc.get_total_num_points(doNaive=True, distinct_function_evals=False),
+    "get_points_and_weights": lambda sc, a, b, c: sc.get_points_and_weights(),
+    "get_points_component_grid": lambda sc, a, b, c: [sc.get_points_component_grid(cg.levelvector) for cg in sc.scheme],
+    "__call__": lambda sc, a, b, c: sc([tuple(a), tuple((x + y) / 2 for x, y in zip(a, b)), tuple(b)]),
+    "interpolate_grid": lambda sc, a, b, c: sc.interpolate_grid([[a[d], b[d]] for d in range(len(a))]),
+    # the library's own self check compares points as exact tuples; with boundary=False the level-1 midpoint (a+b)/2 and the
+    # finer grids' a+(b-a)/2 can differ in the last bit and it then fails on the unchanged tree -> used with boundary=True only
+    "check_combi_scheme": lambda sc, a, b, c: sc.check_combi_scheme(),
+}
+OBSERVER_NAMES = sorted(OBSERVERS)
+
+
+def observe(name, sc, a, b, case):
+    import os
+    import warnings
+    import matplotlib
+    matplotlib.use("Agg")
+    import matplotlib.pyplot as plt
+    try:
+        with warnings.catch_warnings():
+            warnings.simplefilter("ignore")
+            OBSERVERS[name](sc, a, b, case)
+    finally:
+        plt.close("all")
+        for fn in os.listdir("."):
+            if fn.startswith("c02_obs_") and fn.endswith(".png"):
+                os.remove(fn)
+
+
+def _raw_differences(r1, r0):
+    """names of the outputs of the following request that are not bit-identical between the observed object and its twin"""
+    diff = []
+    for key in ("scheme", "points", "lmin_lmax"):
+        if r1.get(key) != r0.get(key):
+            diff.append(key)
+    for key in ("integral", "call", "igrid", "igrid_call"):
+        x, y = r1.get(key), r0.get(key)
+        if (x is None) != (y is None) or (x is not None and (x.shape != y.shape or not np.array_equal(x, y, equal_nan=True))):
+            diff.append(key)
+    (p1, w1), (p0, w0) = r1["pw"], r0["pw"]
+    if p1.shape != p0.shape or not np.array_equal(p1, p0) or w1.shape != w0.shape or not np.array_equal(w1, w0):
+        diff.append("points-and-weights")
+    if r1.get("ngrids") != r0.get("ngrids"):
+        diff.append("number-of-grids")
+    return diff
+
+
+def run_observe(case):
+    out = Outcome()
+    sub = "observe"
+    names = [n for n in case["observe"]]
+    base = dict(case, want_raw=True)
+    o0 = run_combi(dict(base, observe=[]))            # the twin: same requests, no observation in between
+    o1 = run_combi(base)
+    sig0 = set(sg for sg, m in o0.violations)
+    for sg, msg in o0.violations:                      # independent of the observation
+        out.bad(sub + sg[len("combi"):], msg)
+    diff = _raw_differences(o1.raw, o0.raw)
+    new = [(sg, m) for sg, m in o1.violations if sg not in sig0]
+    if diff or new:
+        culprits = names
+        if len(names) > 1:
+            single = []
+            for n in names:
+                o = run_combi(dict(base, observe=[n]))
+                if _raw_differences(o.raw, o0.raw) or any(sg not in sig0 for sg, m in o.violations):
+                    single.append(n)
+            culprits = single or names
+        suffix = "/after-a-read-only-call=" + "+".join(culprits)
+        if diff:
+            out.bad(sub + "/twin-differs/" + "+".join(diff) + suffix,
+                    "after %s (warm-up levels %s) the request (lmin=%d, lmax=%d) on the same object returns scheme %s, the twin object without "
+                    "the call returns %s; differing outputs: %s (d=%d boundary=%s)" % (
+                        culprits, case.get("warmup"), case["lmin"], case["lmax"], o1.raw["scheme"][:6], o0.raw["scheme"][:6], diff,
+                        case["dim"], case["boundary"]))
+        for sg, msg in new:
+            out.bad(sub + sg[len("combi"):] + suffix, msg)
+    out.nontrivial = bool(case.get("warmup") and list(case["warmup"]) != [case["lmin"], case["lmax"]] and names)
+    out.cls("d=%d" % case["dim"], "boundary=%s" % case["boundary"], *["read-only-call=%s" % n for n in names])
+    if case.get("savefile"):
+        out.cls("figures-written-to-file")
+    if case.get("warmup") and case["warmup"][0] < case["warmup"][1]:
+        out.cls("observed-scheme-has-several-grids")
+    out.info = dict(max_read_only_calls=len(names))
     return out
 
 
@@ -881,6 +1006,45 @@ def scheme_strategy(tier):
     return s()
 
 
+def observe_strategy(tier):
+    @st.composite
+    def s(draw):
+        dim = draw(st.sampled_from([2, 2, 2, 2, 1, 3]))
+        boundary = draw(st.booleans())
+        w0 = draw(st.integers(1, 2))
+        w1 = w0 + draw(st.sampled_from([0, 1, 2, 2]))
+        lmin = draw(st.integers(1, 2))
+        lmax = lmin + draw(st.integers(0, 3 if dim <= 2 else 2))
+        if [w0, w1] == [lmin, lmax]:
+            lmax += 1
+        a, b, cls = _draw_box(draw, dim)
+        pool = [n for n in OBSERVER_NAMES if boundary or n != "check_combi_scheme"]
+        # spread evenly over the methods (Hypothesis' own choice concentrates on the first element in short runs)
+        orng = np.random.default_rng(draw(st.integers(0, 10 ** 6)))
+        names = [pool[i] for i in orng.choice(len(pool), size=int(orng.integers(1, 4)), replace=False)]
+        return dict(dim=dim, lmin=lmin, lmax=lmax, boundary=boundary, a=a, b=b, boxclass=cls, warmup=[w0, w1], observe=names,
+                    savefile=draw(st.integers(0, 5)) == 0, op="Integration", integrator="default",
+                    order=draw(st.permutations(list(range(len(BLOCKS))))), outlen=draw(st.sampled_from([None, 3, 5])),
+                    fclass=draw(st.sampled_from(["custom", "own_vectorized"])), nbasis=4, rng=draw(st.integers(0, 10 ** 6)))
+    return s()
+
+
+def observe_fixed():
+    """every read-only method at least once (shard 0), first the classical sequence request - plot the subspaces - request"""
+    groups = [["print_subspaces"], ["print_resulting_combi_scheme", "print_resulting_sparsegrid", "plot"],
+              ["print_subspaces(sparse_grid_spaces=False)", "get_total_num_points", "check_combi_scheme"]]
+    used = set(n for g in groups for n in g)
+    rest = [n for n in OBSERVER_NAMES if n not in used]
+    groups += [rest[i:i + 2] for i in range(0, len(rest), 2)]
+    res = []
+    for i, names in enumerate(groups):
+        dim = 2 if i < 5 else 3
+        res.append(dict(dim=dim, lmin=1, lmax=4 if dim == 2 else 3, boundary=True, a=[-1.0, 0.0, 0.3][:dim], b=[1.3, 1.0, 1.0][:dim],
+                        boxclass="decimal", warmup=[1, 3] if dim == 2 else [1, 2], observe=names, savefile=(i == 0), op="Integration",
+                        integrator="default", order=[[0, 1, 2, 3, 4], [1, 2, 3, 4, 0]][i % 2], outlen=5, fclass="custom", nbasis=4, rng=101 + i))
+    return res
+
+
 def combi_fixed():
     """the classical configurations, always run (shard 0)"""
     res = []
@@ -993,13 +1157,26 @@ def selftest():
         check_structure(o, "t", _Stub(pts), _M, {})
         sigs = " ".join(s for s, m in o.violations)
         assert (want in sigs) if want else not o.violations, (pts, sigs)
+    # the twin comparison is silent for real read-only calls and rejects a call that re-initialises the scheme object
+    oc = observe_fixed()[1]       # print_resulting_combi_scheme, print_resulting_sparsegrid, plot
+    o = run_observe(oc)
+    assert not o.violations and o.nontrivial, o.violations
+    OBSERVERS["_selftest_mutator"] = lambda sc, a, b, c: sc.combischeme.init_adaptive_combi_scheme(sc.lmax[0], sc.lmin[0])
+    try:
+        o = run_observe(dict(oc, observe=["plot", "_selftest_mutator"]))
+    finally:
+        del OBSERVERS["_selftest_mutator"]
+    sigs = " ".join(s for s, m in o.violations)
+    assert "observe/twin-differs/scheme" in sigs and sigs.count("/after-a-read-only-call=_selftest_mutator") >= 2 and "plot" not in sigs, sigs
     # table function is deterministic and spread out
     vals = [table_value((i, 7), 1) for i in range(200)]
     assert table_value((3, 7), 1) == vals[3] and -1 <= min(vals) < -0.8 and 0.8 < max(vals) < 1
 
 
 SUBS = [
-    Sub("combi", combi_strategy, run_combi, dict(quick=1400, thorough=10000), budget_s=dict(quick=30, thorough=470),
+    Sub("combi", combi_strategy, run_combi, dict(quick=1400, thorough=10000), budget_s=dict(quick=26, thorough=440),
         fixed_cases=combi_fixed),
-    Sub("scheme", scheme_strategy, run_scheme, dict(quick=800, thorough=6000), budget_s=dict(quick=8, thorough=50)),
+    Sub("scheme", scheme_strategy, run_scheme, dict(quick=800, thorough=6000), budget_s=dict(quick=7, thorough=40)),
+    Sub("observe", observe_strategy, run_observe, dict(quick=64, thorough=1200), budget_s=dict(quick=12, thorough=60),
+        fixed_cases=observe_fixed),
 ]
